@@ -17,7 +17,24 @@ from vlib import gen_obj  # noqa: E402
 from vlib.memhist_support import LOG  # noqa: E402
 
 mod = __import__(cfg["module"])
-mem = Memory(cfg["dir"] + "/cache", verbose=cfg.get("verbose", 0), compress=cfg.get("compress", False))
+# the one cache directory, possibly under a spelling that is not its canonical path (the process runs with cwd = cfg["dir"])
+import os  # noqa: E402
+LOCATION = cfg["dir"] + "/cache"
+style = cfg.get("location_style", "plain")
+if style == "relative":
+    LOCATION = "cache"
+elif style == "dotdot":
+    os.makedirs(cfg["dir"] + "/sub", exist_ok=True)
+    LOCATION = cfg["dir"] + "/sub/../cache"
+elif style == "symlink":
+    os.makedirs(cfg["dir"] + "/cache", exist_ok=True)
+    if not os.path.islink(cfg["dir"] + "/link"):
+        try:
+            os.symlink("cache", cfg["dir"] + "/link")
+        except FileExistsError:
+            pass
+    LOCATION = cfg["dir"] + "/link"
+mem = Memory(LOCATION, verbose=cfg.get("verbose", 0), compress=cfg.get("compress", False))
 holders = {}
 wrappers = {}
 RECACHE = cfg.get("recache")
@@ -30,7 +47,7 @@ def cache(fn, **kw):
     if RECACHE == "twice":
         w = mem.cache(w, **kw)
     elif RECACHE == "other-memory":
-        w = Memory(cfg["dir"] + "/cache", verbose=cfg.get("verbose", 0), compress=cfg.get("compress", False)).cache(w, **kw)
+        w = Memory(LOCATION, verbose=cfg.get("verbose", 0), compress=cfg.get("compress", False)).cache(w, **kw)
     elif RECACHE == "pickled":
         # the wrapper went through pickle (as when it is sent to a worker or stored): an equivalent wrapper must come back
         import pickle
@@ -95,6 +112,17 @@ out = []
 for step in cfg["steps"]:
     fi = step["f"]
     f = cfg["funcs"][fi]
+    if step.get("op") == "clear":
+        # the whole Memory, or one function's entries, are cleared on purpose; the process goes on using its wrappers
+        try:
+            if step["what"] == "memory":
+                mem.clear(warn=False)
+            else:
+                get_pair(fi, step)[1].clear(warn=False)
+            out.append(dict(op="clear"))
+        except BaseException as e:  # noqa
+            out.append(dict(op="clear", exc=f"{type(e).__name__}: {e}"[:200]))
+        continue
     is_async = f["kind"] == "async"
     plain, cached, *prefix = get_pair(fi, step)
     prefix = prefix[0] if prefix else []
